@@ -321,6 +321,9 @@ THEORY_DECLS = {
                 '(define-sort MyS () String)'],
 }
 NFORMS = 7
+MIXED = 7      # variant: one declaration over the sorts of several theories
+MIXED_SORT = {'arithmetic': 'Int', 'bv': '(_ BitVec 8)', 'fp': 'Float32',
+              'strings': 'String'}
 NEUTRAL = ['(set-logic ALL)', '(declare-const p Bool)', '(assert p)',
            '(declare-sort U 0)', '(check-sat)']
 
@@ -352,8 +355,19 @@ def detect_check(present, variant, mvals, gnone, gvals, traced=True):
     late = (sum(1 << k for k, p in enumerate(present) if p) + variant) % 2
     text = NEUTRAL[0] + NEUTRAL[1] + (NEUTRAL[2] if late else '')
     theories = list(THEORY_DECLS)
+    if variant == MIXED:
+        # one declaration mentions the sorts of all declared theories (in
+        # both orders): every one of them is declared by the input
+        sorts = [MIXED_SORT[t] for t, p in zip(theories, present)
+                 if p and t in MIXED_SORT]
+        if sorts:
+            text += f'(declare-fun mix ({" ".join(sorts[:-1])}) {sorts[-1]})'
+            text += (f'(declare-fun xim ({" ".join(reversed(sorts[1:]))}) '
+                     f'{sorts[0]})')
+        if present[theories.index('datatypes')]:
+            text += THEORY_DECLS['datatypes'][0]
     for t, p in zip(theories, present):
-        if p:
+        if p and variant != MIXED:
             forms = THEORY_DECLS[t]
             text += forms[variant % len(forms)]
     text += ''.join(NEUTRAL[2:])
@@ -650,7 +664,8 @@ def partitions(tier):
             parts.append({'name': f'passes2_{k}',
                           'fn': make_passes2(pairs[k:k + 60]),
                           'budget_s': bud})
-    for v in ((0, 1, 3, 5, 6) if tier == 'quick' else range(NFORMS)):
+    for v in ((0, 1, 3, 5, 6, MIXED) if tier == 'quick'
+              else range(NFORMS + 1)):
         for plo in range(0, 32, 4):
             parts.append({'name': f'detect_{v}_{plo}',
                           'setup': _wrap_is_relevant,
